@@ -122,8 +122,16 @@ def rule_sib(ctx):
                 res.violate("%s::%s : dimension-check-missing" % (adt, q), "%s::%s does not return NnError::WrongDimension for a query of the wrong length" % (adt, q), fn_loc(fns[0]))
             # ... and no answer is produced before that test (an early `return Ok(..)` for k = 0 / an empty index would
             # answer a malformed query that the sibling kinds reject)
-            tr = Tracer(fns[0]).run()
-            errs = [e.order for e in tr.events if e.kind == "call" and e.name == "Err" and e.args and as_term(e.args[0]) is not None and as_term(e.args[0]).op.endswith("WrongDimension")]
+            tr = Tracer(fns[0], inline=ctx.inliner()).run()
+            err_events = [e for e in tr.events if e.kind == "call" and e.name == "Err" and e.args and as_term(e.args[0]) is not None and as_term(e.args[0]).op.endswith("WrongDimension")]
+            errs = [e.order for e in err_events]
+            # the test runs once per query, not once per stored row: inside the loop over the rows it is never reached
+            # for an empty index, which then answers a malformed query with Ok(empty) while the sibling kinds reject it
+            res.instance("%s::%s : dimension check outside the loop over the stored points" % (adt, q))
+            if err_events and all(e.loops for e in err_events):
+                res.violate("%s::%s : dimension-check-per-row" % (adt, q), "%s::%s tests the query's dimension only inside the loop over the stored points: an index without points never reaches the test and answers a malformed query with Ok, where the sibling index kinds return WrongDimension" % (adt, q), fn_loc(fns[0], err_events[0].node["ln"]))
+            else:
+                res.ok()
             res.instance("%s::%s : no answer before the dimension check" % (adt, q))
             early = [e for e in tr.events if errs and e.order < min(errs) and ((e.kind == "ret" and as_term(e.val) is not None and as_term(e.val).is_call("Ok")) or (e.kind == "call" and e.name == "Ok"))]
             if early:
@@ -674,7 +682,59 @@ def rule_cover(ctx):
 
 rule_memorder = layout.make_rule("R-C07-memorder", "raw memory-order buffers (as_slice_memory_order, into_raw_vec, as_ptr) of stored point batches are used by position only behind an is_standard_layout() test", lambda f: f["d"]["krate"] == "linfa_nn", "linfa-nn")
 
+def rule_noint(ctx):
+    """'answers ... for every query': a query goes through `&self`, so without interior mutability in the index types one
+    query cannot change the answer to the next (a scratch buffer behind a Mutex / RefCell that is not reset on an error
+    path does exactly that)."""
+    from .c03 import INTERIOR
+    res = RuleResult("R-C07-noint", "the nearest-neighbour index types (implementors of NearestNeighbourIndex) contain no interior mutability: queries through &self are independent of one another")
+    F = ctx.facts()
+    adts = {}
+    for c in F.crates.values():
+        for a in c.adts:
+            adts[(c.name, a["path"])] = a
+            adts.setdefault(("*", a["path"].split("::")[-1]), a)
+    idx = set()
+    for fn in F.all_fns():
+        d = fn["d"]
+        if d["krate"] == "linfa_nn" and (d.get("trait") or "").endswith("NearestNeighbourIndex") and d.get("self_adt"):
+            idx.add((d["krate"], d["self_adt"]))
+    for (crate, path) in sorted(idx):
+        a = adts.get((crate, path))
+        inst = "%s::%s" % (crate, path.split("::")[-1])
+        res.instance(inst)
+        if a is None:
+            res.undecided("%s : adt-not-found" % inst, "index type not found among the crate's ADTs (fail closed)")
+            continue
+        bad = []
+        seen = set()
+
+        def scan(adt, depth=0):
+            if id(adt) in seen or depth > 4:
+                return
+            seen.add(id(adt))
+            for v in adt["variants"]:
+                for f in v["fields"]:
+                    t = f["ty"]
+                    for marker in INTERIOR:
+                        if marker in t:
+                            bad.append("%s.%s: %s" % (adt["path"].split("::")[-1], f["name"], t[:60]))
+                    for m_ in re.finditer(r"([\w:]+)<|([\w:]+)", t):
+                        nm = (m_.group(1) or m_.group(2)).split("::")[-1]
+                        sub = adts.get(("*", nm))
+                        if sub is not None and sub is not adt:
+                            scan(sub, depth + 1)
+        scan(a)
+        if bad:
+            res.violate("%s : interior-mutability" % inst, "the index type reaches interior mutability (%s): a query through &self can leave state behind that changes the answer to later queries" % "; ".join(bad[:3]))
+        else:
+            res.ok()
+    if len(idx) < 3:
+        res.missing_anchor("implementors of NearestNeighbourIndex in linfa-nn (found %d)" % len(idx))
+    return res.finish(3)
+
+
 def rules(tier):
     from . import precision
     return [rule_unit, rule_sib, rule_edge, rule_degree, rule_memorder, rule_cover, rule_direct,
-            precision.make_rule("R-C07-precision", lambda f: f["d"]["krate"] == "linfa_nn", 30, "linfa-nn")]
+            precision.make_rule("R-C07-precision", lambda f: f["d"]["krate"] == "linfa_nn", 30, "linfa-nn"), rule_noint]
